@@ -340,6 +340,50 @@ def install_gmp(w):
         if conc(d) and d == 0: raise Violation('ub', 'mpz_fdiv_ui by zero')
         return i2b(zmod(n, d), 64)
     H['@__gmpz_fdiv_ui'] = fdiv_ui
+    def tdiv_ui(it, a):
+        # mpz_tdiv_ui / mpz_cdiv_ui return the ABSOLUTE value of the remainder of truncating (resp. ceiling) division
+        n = mz(a[0]); d = b2i(a[1])
+        if conc(d) and d == 0: raise Violation('ub', 'mpz_tdiv_ui by zero')
+        return i2b(zmod(zabs(n), d), 64)
+    H['@__gmpz_tdiv_ui'] = tdiv_ui
+    def cdiv_ui(it, a):
+        n = mz(a[0]); d = b2i(a[1])
+        if conc(d) and d == 0: raise Violation('ub', 'mpz_cdiv_ui by zero')
+        return i2b(zmod(-n, d), 64)
+    H['@__gmpz_cdiv_ui'] = cdiv_ui
+    def fits(lo, hi):
+        def f(it, a):
+            x = mz(a[0])
+            if conc(x): return 1 if lo <= x <= hi else 0
+            return z3.If(z3.And(x >= lo, x <= hi), bvv(1, 32), bvv(0, 32))
+        return f
+    H['@__gmpz_fits_slong_p'] = fits(-2**63, 2**63 - 1); H['@__gmpz_fits_ulong_p'] = fits(0, 2**64 - 1)
+    H['@__gmpz_fits_sint_p'] = fits(-2**31, 2**31 - 1); H['@__gmpz_fits_uint_p'] = fits(0, 2**32 - 1)
+    H['@__gmpz_fits_sshort_p'] = fits(-2**15, 2**15 - 1); H['@__gmpz_fits_ushort_p'] = fits(0, 2**16 - 1)
+    H['@__gmpz_abs'] = lambda it, a: setz(a[0], zabs(mz(a[1])))
+    H['@__gmpz_mul_si'] = lambda it, a: setz(a[0], mz(a[1]) * b2i(a[2], True))
+    H['@__gmpz_addmul_ui'] = lambda it, a: setz(a[0], mz(a[0]) + mz(a[1]) * b2i(a[2]))
+    H['@__gmpz_submul_ui'] = lambda it, a: setz(a[0], mz(a[0]) - mz(a[1]) * b2i(a[2]))
+    H['@__gmpz_addmul'] = lambda it, a: setz(a[0], mz(a[0]) + mz(a[1]) * mz(a[2]))
+    H['@__gmpz_submul'] = lambda it, a: setz(a[0], mz(a[0]) - mz(a[1]) * mz(a[2]))
+    def fdiv_r(it, a):
+        n = mz(a[1]); d = mz(a[2])
+        if conc(n) and conc(d):
+            if d == 0: raise Violation('ub', 'mpz_fdiv_r by zero')
+            r = n % d
+        else: r = z3.If(d > 0, zmod(n, zabs(d)), -zmod(-n, zabs(d)))
+        setz(a[0], r)
+    H['@__gmpz_fdiv_r'] = fdiv_r
+    def cmpabs(it, a):
+        x = zabs(mz(a[0])); y = zabs(mz(a[1]))
+        if conc(x) and conc(y): return ((x > y) - (x < y)) & mask(32)
+        return z3.If(x > y, bvv(1, 32), z3.If(x < y, bvv(mask(32), 32), bvv(0, 32)))
+    H['@__gmpz_cmpabs'] = cmpabs
+    def cmpabs_ui(it, a):
+        x = zabs(mz(a[0])); y = b2i(a[1])
+        if conc(x) and conc(y): return ((x > y) - (x < y)) & mask(32)
+        return z3.If(x > y, bvv(1, 32), z3.If(x < y, bvv(mask(32), 32), bvv(0, 32)))
+    H['@__gmpz_cmpabs_ui'] = cmpabs_ui
     def cmp(it, a):
         x = mz(a[0]); y = mz(a[1])
         if conc(x) and conc(y): return ((x > y) - (x < y)) & mask(32)
